@@ -103,6 +103,9 @@ class Interp:
         # concretize(int term) -> int: fork over the feasible values of a symbolic
         # memory offset instead of building ite-chains over the region
         self.concretize = concretize
+        self.merge = True       # if-convert small pure diamonds instead of forking
+        self.merged = 0
+        self._spec = False
         self.mod = mod
         self.mode = mode
         self.decide = decide
@@ -370,6 +373,8 @@ class Interp:
             return True
         if z3.is_false(c):
             return False
+        if self._spec:
+            raise Interp._Abort()
         return self.decide(c)
 
     # -- external / stub calls ---------------------------------------------------
@@ -468,6 +473,224 @@ class Interp:
         return Ptr(p.reg, off)
 
     # -- function execution ------------------------------------------------------------
+    PURE_OPS = frozenset(("fadd", "fsub", "fmul", "fdiv", "frem", "fneg", "add", "sub", "mul", "sdiv",
+                          "srem", "udiv", "urem", "and", "or", "xor", "shl", "ashr", "lshr", "icmp",
+                          "fcmp", "sext", "zext", "trunc", "sitofp", "uitofp", "fptosi", "fptoui",
+                          "bitcast", "fpext", "fptrunc", "getelementptr", "select", "load", "phi"))
+
+    def _pure_block(self, block):
+        for ins in block[:-1]:
+            op = ins[0]
+            if op in self.PURE_OPS:
+                continue
+            if op == "call":
+                name = ins[2]
+                if name in self.stubs or name in self.mod.functions:
+                    return False
+                if name.startswith("llvm.mem"):
+                    return False
+                continue
+            return False
+        return block[-1][0] in ("jmp", "br")
+
+    def _exec(self, env, ins):
+        """Execute one non-terminator instruction."""
+        val = self.val
+        op = ins[0]
+        if op in ("fadd", "fsub", "fmul", "fdiv", "frem"):
+            env[ins[1]] = self.fop(op, val(env, ins[2]), val(env, ins[3]))
+        elif op == "load":
+            env[ins[1]] = self.load(val(env, ins[3]), ins[2])
+        elif op == "store":
+            self.store(val(env, ins[4]), val(env, ins[3]), ins[2])
+        elif op == "getelementptr":
+            env[ins[1]] = self.gep(env, ins[2], val(env, ins[3]), [val(env, x) for x in ins[4]])
+        elif op in ("add", "sub", "mul", "sdiv", "srem", "udiv", "urem", "and", "or",
+                    "xor", "shl", "ashr", "lshr"):
+            env[ins[1]] = self.iop(op, ins[2], val(env, ins[3]), val(env, ins[4]))
+        elif op == "icmp":
+            env[ins[1]] = self.icmp(ins[2], val(env, ins[3]), val(env, ins[4]))
+        elif op == "fcmp":
+            env[ins[1]] = self.fcmp(ins[2], val(env, ins[3]), val(env, ins[4]))
+        elif op in ("sext", "bitcast", "fpext", "fptrunc", "ptrtoint", "inttoptr"):
+            env[ins[1]] = val(env, ins[2])
+        elif op == "zext":
+            v = val(env, ins[2])
+            if is_sym(v) and z3.is_bool(v):
+                v = z3.If(v, z3.IntVal(1), z3.IntVal(0))
+            elif not is_sym(v) and v < 0:
+                v = v % (1 << ins[3][1])
+            env[ins[1]] = v
+        elif op == "trunc":
+            v = val(env, ins[2])
+            bits = ins[4][1]
+            if is_sym(v):
+                if bits == 1:
+                    v = (v % 2) == 1
+                else:
+                    lim = 1 << (bits - 1)
+                    self.side.append(("trunc in range", z3.And(v >= -lim, v < lim)))
+            else:
+                m = 1 << bits
+                v = (v + (m >> 1)) % m - (m >> 1) if bits > 1 else v & 1
+            env[ins[1]] = v
+        elif op in ("sitofp", "uitofp"):
+            v = val(env, ins[2])
+            if is_sym(v):
+                if z3.is_bool(v):
+                    v = z3.If(v, z3.IntVal(1), z3.IntVal(0))
+                env[ins[1]] = z3.ToReal(v)
+            else:
+                env[ins[1]] = float(v) if self.mode == "float" else Fraction(v)
+        elif op in ("fptosi", "fptoui"):
+            v = val(env, ins[2])
+            if is_sym(v):
+                env[ins[1]] = z3.If(v >= 0, z3.ToInt(v), -z3.ToInt(-v))
+            else:
+                env[ins[1]] = int(v)
+        elif op == "fneg":
+            env[ins[1]] = -val(env, ins[2])
+        elif op == "alloca":
+            self.nalloca += 1
+            name = "alloca%d" % self.nalloca
+            self.mem[name] = {}
+            env[ins[1]] = Ptr(name, 0)
+        elif op == "call":
+            r = self.call(ins[2], [val(env, o) for _t, o in ins[3]])
+            if ins[1] is not None:
+                env[ins[1]] = r
+        elif op == "select":
+            c = val(env, ins[2])
+            a, b = val(env, ins[3]), val(env, ins[4])
+            if not is_sym(c):
+                env[ins[1]] = a if c else b
+            elif isinstance(a, Ptr) or isinstance(b, Ptr):
+                env[ins[1]] = a if self.truth(c) else b
+            else:
+                env[ins[1]] = self._ite(c, a, b)
+        else:
+            raise Unsupported("opcode " + op)
+
+    @staticmethod
+    def _ite(c, a, b):
+        isreal = any(isinstance(x, Fraction) or (is_sym(x) and z3.is_real(x)) for x in (a, b))
+        if isreal:
+            return z3.If(c, rat(a), rat(b))
+        if any(is_sym(x) and z3.is_bool(x) for x in (a, b)):
+            return z3.If(c, bval(a), bval(b))
+        return z3.If(c, ival(a), ival(b))
+
+    def _phis(self, env, block, prev, fname):
+        i, n = 0, len(block)
+        if n and block[0][0] == "phi":
+            pend = []
+            while i < n and block[i][0] == "phi":
+                ins = block[i]
+                for lab, o in ins[2]:
+                    if lab == prev:
+                        pend.append((ins[1], self.val(env, o)))
+                        break
+                else:
+                    raise Unsupported("phi without incoming %s in %s" % (prev, fname))
+                i += 1
+            for d, v in pend:
+                env[d] = v
+        return i
+
+    # -- if-conversion of small pure diamonds (x<lo?lo:x, d>0?sqrt(d):0, ...) -------------
+    class _Abort(Exception):
+        pass
+
+    def _chain(self, f, env0, label, prev, depth):
+        """Speculatively run pure blocks starting at *label*; returns the list of
+        (label, prev, env-before-block) visited, in order."""
+        visits = []
+        env = dict(env0)
+        for _ in range(5):
+            visits.append((label, prev, dict(env)))
+            block = f.blocks[label]
+            if not self._pure_block(block):
+                break
+            i = self._phis(env, block, prev, f.name)
+            for ins in block[i:-1]:
+                self._exec(env, ins)
+            term = block[-1]
+            if term[0] == "jmp":
+                prev, label = label, term[2]
+                continue
+            c = self.val(env, term[2])
+            if is_sym(c):
+                c = z3.simplify(c)
+                if z3.is_true(c):
+                    c = 1
+                elif z3.is_false(c):
+                    c = 0
+            if not is_sym(c):
+                prev, label = label, (term[3] if c else term[4])
+                continue
+            break       # nested symbolic branch: leave it to the caller (no nested merge)
+        return visits
+
+    def _merge_branch(self, f, env, label, c, tl, fl):
+        """Try to turn  br c, T, F  into phi-merging selects at the join block.
+        Returns the join label (env updated with the merged phi values) or None."""
+        if self.mode != "sym" or self._spec:
+            return None
+        self._spec = True
+        nside = len(self.side)
+        saved_mem = None
+        try:
+            try:
+                ct = self._chain(f, env, tl, label, 0)
+                nt = len(self.side)
+                cf = self._chain(f, env, fl, label, 0)
+            except (Interp._Abort, MemoryError_, Unsupported):
+                del self.side[nside:]
+                return None
+        finally:
+            self._spec = False
+        flabels = {lab: k for k, (lab, _p, _e) in enumerate(cf)}
+        join = None
+        for kt, (lab, _p, _e) in enumerate(ct):
+            if lab in flabels:
+                join = (kt, flabels[lab])
+                break
+        if join is None:
+            del self.side[nside:]
+            return None
+        kt, kf = join
+        jl, pt, et = ct[kt]
+        _jl, pf, ef = cf[kf]
+        block = f.blocks[jl]
+        merged = []
+        for ins in block:
+            if ins[0] != "phi":
+                break
+            vt = vf = None
+            for lab, o in ins[2]:
+                if lab == pt:
+                    vt = self.val(et, o)
+                if lab == pf:
+                    vf = self.val(ef, o)
+            if vt is None or vf is None:
+                del self.side[nside:]
+                return None
+            if isinstance(vt, Ptr) or isinstance(vf, Ptr):
+                del self.side[nside:]
+                return None
+            same = (not is_sym(vt) and not is_sym(vf) and vt == vf) or \
+                   (is_sym(vt) and is_sym(vf) and vt.get_id() == vf.get_id())
+            merged.append((ins[1], vt if same else self._ite(c, vt, vf)))
+        # side conditions raised while speculating hold under their branch condition only
+        for k in range(nside, len(self.side)):
+            d, cond = self.side[k]
+            guard = c if k < nt else z3.Not(c)
+            self.side[k] = (d, z3.Implies(guard, cond))
+        for d, v in merged:
+            env[d] = v
+        self.merged += 1
+        return jl
+
     def call(self, fname, args):
         if fname in self.stubs:
             return self.stubs[fname](self, *args)
@@ -481,24 +704,17 @@ class Interp:
         label, prev = f.entry, None
         blocks = f.blocks
         val = self.val
+        skip_phis = False
         while True:
             block = blocks[label]
-            # phis first, evaluated simultaneously
-            i = 0
             n = len(block)
-            if n and block[0][0] == "phi":
-                pend = []
+            if skip_phis:
+                i = 0
                 while i < n and block[i][0] == "phi":
-                    ins = block[i]
-                    for lab, o in ins[2]:
-                        if lab == prev:
-                            pend.append((ins[1], val(env, o)))
-                            break
-                    else:
-                        raise Unsupported("phi without incoming %s in %s" % (prev, fname))
                     i += 1
-                for d, v in pend:
-                    env[d] = v
+                skip_phis = False
+            else:
+                i = self._phis(env, block, prev, fname)
             self.steps += n
             if self.steps > self.max_steps:
                 raise StepCap("step cap %d reached in %s" % (self.max_steps, fname))
@@ -506,91 +722,23 @@ class Interp:
                 ins = block[i]
                 i += 1
                 op = ins[0]
-                if op in ("fadd", "fsub", "fmul", "fdiv", "frem"):
-                    env[ins[1]] = self.fop(op, val(env, ins[2]), val(env, ins[3]))
-                elif op == "load":
-                    env[ins[1]] = self.load(val(env, ins[3]), ins[2])
-                elif op == "store":
-                    self.store(val(env, ins[4]), val(env, ins[3]), ins[2])
-                elif op == "getelementptr":
-                    env[ins[1]] = self.gep(env, ins[2], val(env, ins[3]),
-                                           [val(env, x) for x in ins[4]])
-                elif op in ("add", "sub", "mul", "sdiv", "srem", "udiv", "urem", "and", "or",
-                            "xor", "shl", "ashr", "lshr"):
-                    env[ins[1]] = self.iop(op, ins[2], val(env, ins[3]), val(env, ins[4]))
-                elif op == "icmp":
-                    env[ins[1]] = self.icmp(ins[2], val(env, ins[3]), val(env, ins[4]))
-                elif op == "fcmp":
-                    env[ins[1]] = self.fcmp(ins[2], val(env, ins[3]), val(env, ins[4]))
-                elif op in ("sext", "bitcast", "fpext", "fptrunc", "ptrtoint", "inttoptr"):
-                    env[ins[1]] = val(env, ins[2])
-                elif op == "zext":
-                    v = val(env, ins[2])
-                    if is_sym(v) and z3.is_bool(v):
-                        v = z3.If(v, z3.IntVal(1), z3.IntVal(0))
-                    elif not is_sym(v) and v < 0:
-                        v = v % (1 << ins[3][1])
-                    env[ins[1]] = v
-                elif op == "trunc":
-                    v = val(env, ins[2])
-                    bits = ins[4][1]
-                    if is_sym(v):
-                        if bits == 1:
-                            v = (v % 2) == 1
-                        else:
-                            lim = 1 << (bits - 1)
-                            self.side.append(("trunc in range", z3.And(v >= -lim, v < lim)))
-                    else:
-                        m = 1 << bits
-                        v = (v + (m >> 1)) % m - (m >> 1) if bits > 1 else v & 1
-                    env[ins[1]] = v
-                elif op in ("sitofp", "uitofp"):
-                    v = val(env, ins[2])
-                    if is_sym(v):
-                        if z3.is_bool(v):
-                            v = z3.If(v, z3.IntVal(1), z3.IntVal(0))
-                        env[ins[1]] = z3.ToReal(v)
-                    else:
-                        env[ins[1]] = float(v) if self.mode == "float" else Fraction(v)
-                elif op in ("fptosi", "fptoui"):
-                    v = val(env, ins[2])
-                    if is_sym(v):
-                        env[ins[1]] = z3.If(v >= 0, z3.ToInt(v), -z3.ToInt(-v))
-                    else:
-                        env[ins[1]] = int(v)
-                elif op == "fneg":
-                    v = val(env, ins[2])
-                    env[ins[1]] = -v
-                elif op == "alloca":
-                    self.nalloca += 1
-                    name = "alloca%d" % self.nalloca
-                    self.mem[name] = {}
-                    env[ins[1]] = Ptr(name, 0)
-                elif op == "call":
-                    r = self.call(ins[2], [val(env, o) for _t, o in ins[3]])
-                    if ins[1] is not None:
-                        env[ins[1]] = r
-                elif op == "select":
-                    c = val(env, ins[2])
-                    a, b = val(env, ins[3]), val(env, ins[4])
-                    if not is_sym(c):
-                        env[ins[1]] = a if c else b
-                    elif isinstance(a, Ptr) or isinstance(b, Ptr):
-                        env[ins[1]] = a if self.truth(c) else b
-                    else:
-                        isreal = any(isinstance(x, Fraction) or (is_sym(x) and z3.is_real(x))
-                                     for x in (a, b))
-                        if isreal:
-                            env[ins[1]] = z3.If(c, rat(a), rat(b))
-                        elif any(is_sym(x) and z3.is_bool(x) for x in (a, b)):
-                            env[ins[1]] = z3.If(c, bval(a), bval(b))
-                        else:
-                            env[ins[1]] = z3.If(c, ival(a), ival(b))
-                elif op == "jmp":
+                if op == "jmp":
                     prev, label = label, ins[2]
                     break
                 elif op == "br":
-                    c = self.truth(val(env, ins[2]))
+                    c = val(env, ins[2])
+                    if is_sym(c):
+                        c = z3.simplify(c)
+                        if z3.is_true(c):
+                            c = 1
+                        elif z3.is_false(c):
+                            c = 0
+                    if is_sym(c) and self.merge:
+                        jl = self._merge_branch(f, env, label, c, ins[3], ins[4])
+                        if jl is not None:
+                            prev, label, skip_phis = None, jl, True
+                            break
+                    c = self.truth(c)
                     prev, label = label, (ins[3] if c else ins[4])
                     break
                 elif op == "switch":
@@ -613,6 +761,6 @@ class Interp:
                 elif op == "unreachable":
                     raise MemoryError_("unreachable executed in " + fname)
                 else:
-                    raise Unsupported("opcode " + op)
+                    self._exec(env, ins)
             else:
                 raise Unsupported("block %s of %s falls through" % (label, fname))
